@@ -308,7 +308,6 @@ bool Model::admissible(const Call& c, std::string* why) const {
     }
     case OP_SMALL_PRODUCT: {
       if (ntt) return fail("not provided for NTT120");
-      if (c.s[0] == c.s[1] || c.s[0] == c.s[2]) return fail("res not aliased");
       if (linf_at(1, 0) >= B50 || linf_at(2, 0) >= B50) return fail("coefficient >= 2^50");
       if (!mag_ok(poly_l1(L(1, 0)->c) * poly_l1(L(2, 0)->c), 1)) return fail("product outside budget");
       return true;
